@@ -596,6 +596,53 @@ fn data_for(kind: Option<SizeKind>, var: u8, qual: u8, shape: usize, no_data: bo
     Some((range_bytes, data))
 }
 
+/// every object string of the acceptance product for one (group, variation, qualifier):
+/// shapes x completeness x {with data, header only as in a READ}; used by C01 as hostile input
+pub fn hostile_objects(g: u8, v: u8, q: u8, max_len: usize) -> Vec<Vec<u8>> {
+    let kind = app::size_of(g, v);
+    let mut out: Vec<Vec<u8>> = Vec::new();
+    for no_data in [true, false] {
+        for shape in 0..SHAPES {
+            let Some((range, data)) = data_for(kind, v, q, shape, no_data) else { continue };
+            if data.len() > max_len {
+                continue;
+            }
+            for comp in 0..COMPLETENESS {
+                let mut objs = vec![g, v, q];
+                objs.extend_from_slice(&range);
+                match comp {
+                    0 => objs.extend_from_slice(&data),
+                    1 => {
+                        if data.is_empty() {
+                            continue;
+                        }
+                        objs.extend_from_slice(&data[..data.len() - 1]);
+                    }
+                    2 => {
+                        objs.extend_from_slice(&data);
+                        objs.push(0x01);
+                    }
+                    _ => {
+                        if data.is_empty() {
+                            continue;
+                        }
+                    }
+                }
+                if !out.contains(&objs) {
+                    out.push(objs);
+                }
+            }
+        }
+    }
+    out
+}
+
+/// the (group, variation) and qualifier menus of the acceptance product
+pub fn hostile_menu(tier: &str) -> (Vec<(u8, u8)>, Vec<u8>) {
+    let a = build_accept(tier);
+    (a.gvs, a.quals)
+}
+
 impl CaseSpace for Accept {
     fn name(&self) -> String {
         self.name.clone()
